@@ -611,4 +611,84 @@ theorem agent_render_parse (td ap dc node : Bytes) (id : Id)
   · rw [matchGateway_agent_none, matchServer_client_none] at h
     simp [joinSegs] at h
 
+/-! ### request lists: last-by-id table of an all-inactive list plus one active root -/
+
+theorem upsert_mem {α : Type} (key : α → Bytes) (acc : List α) (x y : α) (h : y ∈ upsert key acc x) :
+    y ∈ acc ∨ y = x := by
+  unfold upsert at h
+  split at h
+  · simp only [List.mem_map] at h
+    obtain ⟨z, hz, rfl⟩ := h
+    split
+    · right; rfl
+    · left; exact hz
+  · simp at h; exact h
+
+theorem upsert_ids_nodup (acc : List ReqRoot) (x : ReqRoot) (h : (acc.map (·.id)).Nodup) :
+    ((upsert (·.id) acc x).map (·.id)).Nodup := by
+  unfold upsert
+  split
+  · have : (acc.map (fun y => if y.id = x.id then x else y)).map (·.id) = acc.map (·.id) := by
+      simp only [List.map_map]
+      apply List.map_congr_left
+      intro y _
+      simp only [Function.comp]
+      split <;> simp_all
+    rw [this]; exact h
+  · rename_i hany
+    simp only [List.map_append, List.map_cons, List.map_nil]
+    rw [List.nodup_append]
+    refine ⟨h, by simp, ?_⟩
+    intro a ha b hb
+    simp at hb
+    subst hb
+    intro hab
+    subst hab
+    apply hany
+    simp only [List.mem_map] at ha
+    obtain ⟨z, hz, hzz⟩ := ha
+    simp only [List.any_eq_true, decide_eq_true_eq]
+    exact ⟨z, hz, hzz⟩
+
+theorem lastById_from (l acc : List ReqRoot) (h : (acc.map (·.id)).Nodup) :
+    ((l.foldl (upsert (·.id)) acc).map (·.id)).Nodup := by
+  induction l generalizing acc with
+  | nil => simpa using h
+  | cons x xs ih => simp only [List.foldl_cons]; exact ih _ (upsert_ids_nodup acc x h)
+
+theorem foldl_upsert_inactive (l acc : List ReqRoot) (ha : ∀ y ∈ acc, y.active = false) (hl : ∀ y ∈ l, y.active = false) :
+    ∀ y ∈ l.foldl (upsert (·.id)) acc, y.active = false := by
+  induction l generalizing acc with
+  | nil => simpa using ha
+  | cons x xs ih =>
+    simp only [List.foldl_cons]
+    apply ih
+    · intro y hy
+      rcases upsert_mem _ acc x y hy with h | h
+      · exact ha y h
+      · subst h; exact hl _ (by simp)
+    · intro y hy; exact hl y (by simp [hy])
+
+theorem replace_count (acc : List ReqRoot) (x : ReqRoot) (ha : ∀ y ∈ acc, y.active = false)
+    (hn : (acc.map (·.id)).Nodup) (hx : x.active = true) :
+    ((acc.map (fun y => if y.id = x.id then x else y)).filter (·.active)).length =
+      if acc.any (·.id = x.id) then 1 else 0 := by
+  induction acc with
+  | nil => simp
+  | cons y ys ih =>
+    simp only [List.map_cons, List.nodup_cons] at hn
+    have ih' := ih (fun z hz => ha z (by simp [hz])) hn.2
+    by_cases hy : y.id = x.id
+    · have hnone : ys.any (·.id = x.id) = false := by
+        simp only [List.any_eq_false, decide_eq_true_eq]
+        intro z hz hzx
+        apply hn.1
+        simp only [List.mem_map]
+        exact ⟨z, hz, by rw [hzx, hy]⟩
+      rw [hnone] at ih'
+      simp [hy, hx, ih']
+    · have hyf : y.active = false := ha y (by simp)
+      simp [hy, hyf, ih']
+
+
 end CV.Ca
